@@ -985,13 +985,15 @@ func (g *gen) checkCallGuards(st *State, callee string, lbl string, args []*Val)
 	if g.con == nil || g.dry > 0 {
 		return
 	}
-	for _, cg := range g.con.CallGuards {
+	for gi := range g.con.CallGuards {
+		cg := &g.con.CallGuards[gi]
 		if !cg.Pattern.MatchString(callee) {
 			continue
 		}
 		if cg.Ordinal > 0 && g.callOrdinal(callee) != cg.Ordinal {
 			continue
 		}
+		cg.Used = true
 		env := g.specEnv(st, g.entry)
 		g.bindLocals(env)
 		g.guardArgs = args
@@ -1005,11 +1007,13 @@ func (g *gen) checkStoreGuards(st *State, k LeafKey) {
 	if g.con == nil || g.dry > 0 {
 		return
 	}
-	for _, sg := range g.con.StoreGuards {
+	for gi := range g.con.StoreGuards {
+		sg := &g.con.StoreGuards[gi]
 		name := shortType(k.Type) + "." + k.Path
 		if !sg.Pattern.MatchString(name) {
 			continue
 		}
+		sg.Used = true
 		env := g.specEnv(st, g.entry)
 		g.bindLocals(env)
 		f := g.evalBool(sg.Cond.Expr, env, true)
